@@ -74,6 +74,16 @@ def evaluate(ctx, cases, stream):
                 bad = {'what': 'reads-changed-the-container', 'impl': {'len_before': len0, 'len_after': len1}}
             elif any(v <= 0 for _, _, v in items1):
                 bad = {'what': 'non-positive-stored', 'impl': [t for t in items1 if t[2] <= 0][:5]}
+            else:
+                # the FIRST read of a freshly precomputed container (whichever pair it is, either key order) is right as well
+                for a, b, v in (items1[:1] + items1[-2:] + items1[len(items1) // 2:len(items1) // 2 + 1]):
+                    for x, y in ((a, b), (b, a)):
+                        first = to_int(impl_precalc(edges, ic).get_similarity(x, y))
+                        if first != v:
+                            bad = {'what': 'first-read-of-a-fresh-container', 'pair': [x, y], 'impl': first, 'model': v}
+                            break
+                    if bad:
+                        break
         except Exception as e:  # noqa
             bad = {'what': 'raises', 'impl': f'{type(e).__name__}: {e}'}
         if bad:
@@ -166,8 +176,56 @@ def run(ctx):
         cases.append((edges, random_ic(rng, edges)))
     for i in range(0, len(cases), 100):
         evaluate(ctx, cases[i:i + 100], 'random')
+    dense_ontology(ctx, rng)
+
+
+def dense_ontology(ctx, rng):
+    """an ontology with more than 2^16 is_a edges on far fewer than 2^16 terms: the bulk (a complete DAG of 370 terms, 68 265 edges) sits
+    OUTSIDE Phenotypic abnormality, so the precomputation stays small, while the phenotype terms sort after it (their rows lie beyond
+    offset 2^16 in any CSR layout); MICA of every phenotype pair against a closure computed here"""
+    pa, root, sysid, other = pa_id(), 'HP:0000001', 'HP:0000119', 'HP:0000005'
+    n = 370
+    bulk = [f'HP:{i:07d}' for i in range(200, 200 + n)]
+    edges = [(pa, root), (sysid, pa), (other, root), (bulk[0], other)] + [(bulk[j], bulk[i]) for j in range(1, n) for i in range(j)]
+    ph = [f'HP:{9000000 + i:07d}' for i in range(14)]
+    par = {ph[0]: [sysid]}
+    for k in range(1, len(ph)):
+        par[ph[k]] = rng.sample(ph[:k], min(k, rng.choice([1, 1, 2, 3])))
+    edges += [(c, p) for c, ps in par.items() for p in ps]
+    rng.shuffle(edges)
+    ic = {t: rng.choice([0, 1, 2, 4, 5, 8, 13]) for t in ph}
+    ic[sysid] = 1
+    ctx.case(['dense-ontology', n], True, 'dense ontology (68 265 edges outside the phenotype branch)', sample={'terms': n + len(ph) + 4, 'edges': len(edges)})
+    problem = None
+    try:
+        c = impl_precalc(edges, ic)
+
+        def anc(v):
+            seen, todo = {v}, [v]
+            while todo:
+                for p in par.get(todo.pop(), []):
+                    if p not in seen:
+                        seen.add(p)
+                        todo.append(p)
+            return seen
+        for a in ph:
+            for b in ph:
+                want = max([ic.get(x, 0) for x in anc(a) & anc(b)] + [0])
+                got = to_int(c.get_similarity(a, b))
+                if got != want:
+                    problem = f'similarity({a}, {b}) = {got}/{SCALE}, the most informative common ancestor has IC {want}/{SCALE}'
+                    break
+            if problem:
+                break
+    except Exception as e:  # noqa
+        problem = f'raises {type(e).__name__}: {str(e)[:200]}'
+    if problem:
+        ctx.violation('dense-ontology', {'case': {'kind': 'dense-ontology'}, 'impl': problem, 'theorem': 'Hpv.Props.C10.mica_is_max'})
 
 
 def replay(ctx, data):
+    if data['case'].get('kind') == 'dense-ontology':
+        dense_ontology(ctx, ctx.rng)
+        return
     c = data['case']
     evaluate(ctx, [([tuple(e) for e in c['edges']], {k: v for k, v in c['ic'].items()})], 'replay')
